@@ -54,8 +54,73 @@ func stopClass(rest string) string {
 	return "other"
 }
 
+// c08StValue is an expression placed where the grammar parses under different switches than
+// around it (attribute edits parse their value without statements, default-sided dice and
+// bitwise operators): every construct those switches affect, in every operand position.
+func c08StValue(r *fw.Rand) string {
+	atom := func() string {
+		return r.Pick([]string{"1", "2", "x", "d", "2d", "d6", "1|2", "3&1", "(1|2)", "(d)", "60", "1.5", "'s'", "[1|2]", "f(1|2)", "a", "b2", "f", "3a8", "`{1|2}`", "`{% if 1 {2} %}`", "if 1 {2}", "-1", "1d", "d+1"})
+	}
+	switch r.Intn(12) {
+	case 0:
+		return atom()
+	case 1:
+		return atom() + r.Pick([]string{"+", "-", "*", " + ", "|", " | ", "&", " && ", " || ", " ?? ", " > ", "=="}) + atom()
+	case 2:
+		return atom() + " ? " + atom() + " : " + atom()
+	case 3:
+		return atom() + "?" + atom() + ":" + atom()
+	case 4:
+		return atom() + " ? " + atom() + ", " + atom() + " ? " + atom()
+	case 5:
+		return atom() + " ? " + atom()
+	case 6:
+		return "(" + atom() + " ? " + atom() + " : " + atom() + ")"
+	case 7:
+		return atom() + " || " + atom() + " ? " + atom() + " : " + atom()
+	case 8:
+		return gen.DiceProgram(r)
+	case 9:
+		return gen.ValidProgram(r, 1, false)
+	case 10:
+		return atom() + "[" + atom() + ":" + atom() + "]"
+	default:
+		return atom() + " ? " + atom() + "|" + atom() + " : " + atom() + r.Pick([]string{"", "|" + atom(), " & " + atom()})
+	}
+}
+
+func c08StList(r *fw.Rand) string {
+	var sb strings.Builder
+	sb.WriteString("^st")
+	n := r.Range(1, 4)
+	for i := 0; i < n; i++ {
+		name := r.Pick([]string{"力量", "x", "hp", "敏捷", "x:y", "属性2", "'a b'", "sx"})
+		v := c08StValue(r)
+		switch r.Intn(9) {
+		case 0, 1, 2:
+			sb.WriteString(name + r.Pick([]string{":", "=", ": ", " = "}) + v)
+		case 3:
+			sb.WriteString(name + v)
+		case 4:
+			sb.WriteString("&" + name + r.Pick([]string{"=", " = ", ":"}) + v)
+		case 5:
+			sb.WriteString(name + r.Pick([]string{"*", "*2", "*1.5"}) + r.Pick([]string{":", "="}) + v)
+		case 6:
+			sb.WriteString(name + r.Pick([]string{"+", "+=", "-=", "-", " + ", " -= "}) + v)
+		case 7:
+			sb.WriteString(name + r.Pick([]string{":", "="}) + "(" + v + ")")
+		default:
+			sb.WriteString(name + r.Pick([]string{":", "="}) + v + r.Pick([]string{"", " "}) + r.Pick(gen.Tails))
+		}
+		sb.WriteString(r.Pick([]string{"", " ", ",", ", "}))
+	}
+	return sb.String()
+}
+
 func c08Source(r *fw.Rand) (string, string) {
-	switch k := r.Intn(20); {
+	switch k := r.Intn(23); {
+	case k >= 20:
+		return c08StList(r), "st-list"
 	case k < 5:
 		return gen.StmtNest(r, 1+r.Intn(4), false, false), "stmt-nest"
 	case k < 8:
